@@ -18,6 +18,8 @@ pub enum LifeEv {
     Synth,
     Ping,
     Ping2,
+    /// an event (polled or synthetic, the source cannot tell) on the socket's sub-token
+    Sock,
 }
 
 pub struct LifeK {
@@ -41,6 +43,12 @@ pub struct LifeK {
     pub synth_delivered: u32,
     pub iter_keys: Vec<usize>,
     pub iter_checked: bool,
+    // ---- socket child registered directly on its own sub-token
+    pub sock: Option<(SharedFd, std::os::fd::OwnedFd)>,
+    pub synth_on_sock: bool,
+    /// full poller key of the socket's registration (0 = not registered)
+    pub sock_key: Rc<Cell<usize>>,
+    pub sock_events: u32,
 }
 
 pub struct LifeSrc {
@@ -50,6 +58,30 @@ pub struct LifeSrc {
     /// the last registration step fails (after the first child went into the poller)
     fail_step2: bool,
     synth_token: Option<Token>,
+    sock: Option<SharedFd>,
+    sock_token: Option<Token>,
+    sock_key: Rc<Cell<usize>>,
+    synth_on_sock: bool,
+}
+
+impl LifeSrc {
+    fn sock_register(&mut self, poll: &mut Poll, tf: &mut TokenFactory, re: bool) -> calloop::Result<()> {
+        if let Some(fd) = &self.sock {
+            let t = tf.token();
+            // SAFETY: the fd outlives the registration (unregistered in unregister(), and the
+            // harness keeps the socket open)
+            unsafe {
+                if re {
+                    poll.reregister(&*fd.0, calloop::Interest::READ, calloop::Mode::Level, t)?;
+                } else {
+                    poll.register(&*fd.0, calloop::Interest::READ, calloop::Mode::Level, t)?;
+                }
+            }
+            self.sock_token = Some(t);
+            self.sock_key.set(t.verif_key());
+        }
+        Ok(())
+    }
 }
 
 impl EventSource for LifeSrc {
@@ -64,6 +96,13 @@ impl EventSource for LifeSrc {
     {
         if Some(token) == self.synth_token {
             callback(LifeEv::Synth, &mut ());
+            return Ok(PostAction::Continue);
+        }
+        if self.sock_token == Some(token) {
+            callback(LifeEv::Sock, &mut ());
+            if let Some(fd) = &self.sock {
+                crate::os::read(std::os::fd::AsRawFd::as_raw_fd(&*fd.0), 65536);
+            }
             return Ok(PostAction::Continue);
         }
         let mut act = PostAction::Continue;
@@ -90,7 +129,7 @@ impl EventSource for LifeSrc {
         if let Some(p) = &mut self.ping2 {
             p.register(poll, tf)?;
         }
-        Ok(())
+        self.sock_register(poll, tf, false)
     }
 
     fn reregister(&mut self, poll: &mut Poll, tf: &mut TokenFactory) -> calloop::Result<()> {
@@ -101,7 +140,7 @@ impl EventSource for LifeSrc {
         if let Some(p) = &mut self.ping2 {
             p.reregister(poll, tf)?;
         }
-        Ok(())
+        self.sock_register(poll, tf, true)
     }
 
     fn unregister(&mut self, poll: &mut Poll) -> calloop::Result<()> {
@@ -111,6 +150,12 @@ impl EventSource for LifeSrc {
         }
         if let Some(p) = &mut self.ping2 {
             p.unregister(poll)?;
+        }
+        if let Some(fd) = &self.sock {
+            if self.sock_token.take().is_some() {
+                self.sock_key.set(0);
+                poll.unregister(&*fd.0)?;
+            }
         }
         Ok(())
     }
@@ -137,7 +182,8 @@ impl EventSource for LifeSrc {
         }
         let synth = l.bs == 1 && l.plan.pop_front().unwrap_or(false);
         if synth {
-            if let Some(t) = self.synth_token {
+            let tok = if self.synth_on_sock { self.sock_token } else { self.synth_token };
+            if let Some(t) = tok {
                 l.synth_returned = true;
                 st.wait_synthetic = true;
                 return Ok(Some((Readiness { readable: true, writable: false, error: false }, t)));
@@ -165,7 +211,8 @@ impl EventSource for LifeSrc {
     }
 }
 
-pub fn insert_lifecycle(sim: &Sim, id: Id, with_ping: bool, synth: &[bool], script: &Script, two: bool, fail_step2: bool, keep_rejected: bool) {
+#[allow(clippy::too_many_arguments)]
+pub fn insert_lifecycle(sim: &Sim, id: Id, with_ping: bool, synth: &[bool], script: &Script, two: bool, fail_step2: bool, keep_rejected: bool, sock: bool, synth_on_sock: bool) {
     let Some(h) = sim.st.borrow().handle.clone() else { return };
     if sim.st.borrow().srcs.contains_key(&id) {
         return;
@@ -187,6 +234,14 @@ pub fn insert_lifecycle(sim: &Sim, id: Id, with_ping: bool, synth: &[bool], scri
         (vec![], None)
     };
     let fail_step2 = fail_step2 && two;
+    let sock_key = Rc::new(Cell::new(0usize));
+    let (sock_src, sock_model) = if sock {
+        let (a, b) = crate::os::socketpair();
+        let own = SharedFd(Rc::new(a));
+        (Some(own.clone()), Some((own, b)))
+    } else {
+        (None, None)
+    };
     let sh = WrapShared::new(id);
     let cbd = Rc::new(Cell::new(0));
     let guard = crate::ops::DropCtr(cbd.clone());
@@ -208,9 +263,13 @@ pub fn insert_lifecycle(sim: &Sim, id: Id, with_ping: bool, synth: &[bool], scri
         synth_delivered: 0,
         iter_keys: vec![],
         iter_checked: false,
+        sock: sock_model,
+        synth_on_sock,
+        sock_key: sock_key.clone(),
+        sock_events: 0,
     });
     let src = crate::ops::new_src(id, script, k, sh.clone(), cbd);
-    let source = LifeSrc { id, ping: psrc, ping2: psrc2, fail_step2, synth_token: None };
+    let source = LifeSrc { id, ping: psrc, ping2: psrc2, fail_step2, synth_token: None, sock: sock_src, sock_token: None, sock_key, synth_on_sock };
     let rejected: Rc<std::cell::RefCell<Option<Box<dyn std::any::Any>>>> = Rc::new(std::cell::RefCell::new(None));
     let rej = rejected.clone();
     let keep_rejected = keep_rejected && two;
@@ -265,6 +324,9 @@ pub fn on_life(id: Id, ev: LifeEv, tag: &mut Tag) {
                         }
                         l.pending = false;
                     }
+                    LifeEv::Sock => {
+                        l.sock_events += 1;
+                    }
                     LifeEv::Ping2 => {
                         if !l.pending2 {
                             viol = Some(("ping.callback_without_ping", format!("lifecycle source {}: second ping child callback without a ping", id)));
@@ -297,6 +359,7 @@ pub fn dispatch_start(st: &mut St) {
             l.bhe_after_pe = false;
             l.synth_returned = false;
             l.synth_delivered = 0;
+            l.sock_events = 0;
             l.iter_keys.clear();
         }
     }
@@ -337,7 +400,17 @@ pub fn after_dispatch(sim: &Sim, ok: bool, waited: bool) {
                 if expect != l.iter_keys && !any_indet {
                     viol = Some(("lifecycle.iterator", vec![], format!("lifecycle source {}: before_handle_events iterator yielded keys {:x?}, the polled batch holds {:x?} for it", id, l.iter_keys, expect)));
                 }
-                if ok && l.synth_returned && l.synth_delivered != 1 && !s.excused {
+                // the socket's token: one call per polled event and one for a synthetic event
+                // that carries it - never merged, never dropped
+                let sk = l.sock_key.get();
+                if ok && sk != 0 && !s.excused && !any_indet {
+                    let polled = batch.iter().filter(|e| e.key == sk).count() as u32;
+                    let synth = (l.synth_returned && l.synth_on_sock) as u32;
+                    if l.sock_events != polled + synth {
+                        viol = Some(("lifecycle.synthetic_not_delivered", vec!["shared_token".into()], format!("lifecycle source {}: its socket sub-token had {} polled and {} synthetic event(s) in this dispatch but process_events was called {} time(s) for it", id, polled, synth, l.sock_events)));
+                    }
+                }
+                if ok && l.synth_returned && !l.synth_on_sock && l.synth_delivered != 1 && !s.excused {
                     viol = Some(("lifecycle.synthetic_not_delivered", vec![], format!("lifecycle source {} returned a synthetic event from before_sleep but it was delivered {} times", id, l.synth_delivered)));
                 }
             }
